@@ -1856,6 +1856,14 @@ class Interp:
             return r
         if name == "isinstance":
             return self.isinstance_(args[0], args[1], node)
+        if name == "sum" and args and isinstance(args[0], (list, tuple)) and _has_abs(list(args[0]) + list(args[1:])) and not kwargs:
+            # a fold with '+': the elements' own arithmetic decides
+            acc = args[1] if len(args) > 1 else 0
+            for x in args[0]:
+                acc = self.binop(ast.Add, acc, x, node)
+            return acc
+        if name in ("ext:fractions.Fraction", "Fraction") and len(args) == 1 and hasattr(args[0], "a_fraction"):
+            return args[0].a_fraction(self, node)
         if name in ("int", "float", "str", "abs", "bool", "min", "max", "sum", "round", "ord", "chr") \
                 and not _has_abs(args) and not kwargs:
             try:
